@@ -93,6 +93,9 @@ def selftest(prop: str, seed: int = 0) -> int:
           f"not applicable {na}, wall {time.time() - t0:.1f}s")
     for r in bad:
         print(f"    SELFTEST {r[2]}: {r[0]} ({r[1]}): {r[3]}")
+    for r in res:
+        if r[2] == "n/a":
+            print(f"    selftest variant not applicable to this tree: {r[0]}: {r[3]}")
     # record in the evidence file written by the main run
     ev_path = os.path.join(EVIDENCE_DIR, f"{prop}.json")
     try:
